@@ -112,8 +112,10 @@ class PGMCompiler:
         The object itself.
         """
 
-        # a new program: its dwell time is counted from zero, also when the object has already written a file
-        self._total_dwell_time = 0.0
+        # a new program: its dwell time is counted from zero, also when the object has already written a file;
+        # instructions given before the `with` block belong to this program and so do their pauses
+        if not self._instructions:
+            self._total_dwell_time = 0.0
         self.header()
         self.dwell(1.0)
         self.instruction('\n')
